@@ -508,8 +508,9 @@ class BatteryDistributionAlgorithm:
         for ratio_data in battery_availability_ratio:
             inverter_set = _InverterSet(ratio_data.inverter_ids)
             # ratio = 0, means all remaining batteries reach max SoC lvl or have no
-            # capacity
-            if is_close_to_zero(ratio):
+            # capacity.  The same holds for this battery alone, if its own ratio is
+            # 0, in which case it must not be used, not even with its min power.
+            if is_close_to_zero(ratio) or is_close_to_zero(ratio_data.ratio):
                 distribution[inverter_set] = _Power(
                     upper_bound=0.0,
                     power=0.0,
